@@ -115,3 +115,51 @@ def catalogue(rng, thorough=False):
         E = np.hstack([E1, E2 + V1.shape[1]]).astype(np.uint32)
         out.append(("two_components", distort(V, rng, 0.1), E, np.concatenate([d1, d2 + 4])))
     return out
+
+
+# ---- open grids with interior edges that join two BORDER vertices with different cell counts ------------------
+def strip5():
+    """One-element-wide strip of 5 non-uniform triangles: every vertex is on the border, cell counts 1..3."""
+    V = np.array([[0, 0, 0], [1, 0, 0], [2, 0.1, 0.1], [0.4, 1, 0], [1.5, 1.1, 0.2], [2.5, 0.9, 0], [3.1, 0.2, 0]], float).T
+    E = np.array([[0, 1, 3], [1, 4, 3], [1, 2, 4], [2, 5, 4], [2, 6, 5]], dtype=np.uint32).T
+    return V, E, np.array([0, 0, 0, 1, 1])
+
+
+def lshape():
+    """L-shaped screen (3 unit squares, 6 triangles, alternating diagonals)."""
+    V = np.array([[0, 0, 0], [1, 0, 0], [2, 0, 0], [0, 1, 0], [1, 1, 0], [2, 1, 0], [0, 2, 0], [1, 2, 0]], float).T
+    E = np.array([[0, 1, 4], [0, 4, 3], [1, 2, 4], [2, 5, 4], [3, 4, 6], [4, 7, 6]], dtype=np.uint32).T
+    return V, E, np.array([0, 0, 1, 1, 0, 0])
+
+
+def cornercut():
+    """2x2 screen plus a fan: triangles cutting corners, border-border interior edges with cell counts 2 vs 3 / 4."""
+    V = np.array([[0, 0, 0], [1, 0, 0], [2, 0, 0], [0, 1, 0], [1, 1, 0], [2, 1, 0], [0, 2, 0], [1, 2, 0], [2, 2, 0]], float).T
+    E = np.array([[0, 1, 3], [1, 4, 3], [1, 2, 4], [2, 5, 4], [3, 4, 7], [3, 7, 6], [4, 5, 7]], dtype=np.uint32).T
+    return V, E, np.array([0, 0, 0, 1, 1, 0, 1])
+
+
+def border_catalogue(rng, thorough=False):
+    out = []
+    V, E, d = strip5()
+    out.append(("strip5", V, E, d))
+    V, E, d = lshape()
+    out.append(("lshape_distorted", distort(V, rng, 0.12, affine=False), E, d))
+    V, E, d = cornercut()
+    out.append(("cornercut_distorted", distort(V, rng, 0.1), E, d))
+    if thorough:
+        V, E, d = strip5()
+        E2, d2 = shuffle_elements(E, d, rng)
+        out.append(("strip5_shuffled", distort(V, rng, 0.08), E2, d2))
+    return out
+
+
+def renumber(V, E, dom, rng):
+    """Same mesh with permuted vertex numbers, permuted elements and rotated local vertex order."""
+    nv = V.shape[1]
+    p = rng.permutation(nv)                       # old vertex v -> new number p[v]
+    V2 = np.empty_like(V)
+    V2[:, p] = V
+    E2 = p[E.astype(int)]
+    E2, dom2 = shuffle_elements(E2.astype(np.uint32), np.asarray(dom), rng)
+    return V2, E2.astype(np.uint32), dom2, p
